@@ -279,8 +279,8 @@ def observe(make, X, cell, restart_update=False):
         obs["scores"] = ("skip",)
 
     def dense(out):
-        same = bool(out.index.equals(own_index)) and str(getattr(out.index, "tz", None)) == str(getattr(own_index, "tz", None)) \
-            and (own_index.name is None or out.index.name == own_index.name)
+        # the labels and, for datetimes, the time zone they are expressed in (the index NAME is not demanded: Index.equals ignores it as well)
+        same = bool(out.index.equals(own_index)) and str(getattr(out.index, "tz", None)) == str(getattr(own_index, "tz", None))
         return (numeric(out), same if len(out) == n else None)
     r = attempt(lambda: det.transform(R))
     obs["transform"] = ("ok", dense(r[1])) if r[0] == "ok" else r
